@@ -62,7 +62,7 @@ def detect(d, tier="quick", props=None):
         sh(["git", "-C", VERIF, "checkout", "--", "evidence"])
     meta.setdefault("detection", {}).update(res)
     json.dump(meta, open(os.path.join(d, "meta.json"), "w"), indent=1)
-    return any(v["rc"] == 1 for v in res.values())
+    return any(v["rc"] == 1 and v["violations"] for v in res.values())
 
 if __name__ == "__main__":
     cmd = sys.argv[1]
